@@ -2,6 +2,11 @@ import Momo.Proof.StdWrapErase
 import Momo.Proof.StdWrapEq
 import Momo.Proof.StdWrapHint
 import Momo.Proof.StdWrapFlags
+import Momo.Proof.StdWOrdHist
+import Momo.Proof.StdWVec
+import Momo.Proof.StdWUnoHist
+import Momo.Proof.StdWMmHist
+import Momo.Proof.StdWNative
 /-!
 # C06 — stdish containers give the same answers as the std containers they replace
 
@@ -354,3 +359,171 @@ example : mapInsertOrAssign [(1,10),(3,30),(5,50)] (some 0) (3,31) = ([(1,10),(3
 example : mapAt [(1,10),(3,30),(5,50)] 4 = none ∧ mapAt [(1,10),(3,30),(5,50)] 5 = some 50 := by decide
 
 end Momo.StdWrap
+
+
+/-! # Whole call histories: the wrapper model refines the specification of the std containers
+
+`Momo/Model/StdSpec.lean` is a hand-written formal specification of `std::set / multiset / map / multimap`, `std::vector`,
+`std::unordered_set / unordered_map / unordered_multimap` as the C++ standard describes them (sorted sequence, stable for
+equivalent keys, hinted insertion as close as possible to the hint; list; finite (multi)map with canonicalised observations). `Momo/Model/StdWrapOps.lean`
+models every operation of the momo::stdish wrappers as written in the headers, over the abstract states of the native
+containers (their contracts are C01 / C02 / C05 / C08). The theorems below close, INSIDE the model, the gap `C06_full` names:
+for every legal call history the wrapper model and the specification produce the same list of observations (inserted
+flags, positions, counts, bounds, erase results, node-handle contents, `out_of_range`, the six comparison results, full
+traversals) — hence also the same contents, since `contents` is a call.
+
+What stays differential (T2, not a theorem): "libstdc++ implements `StdSpec`" — checked on every run by
+`harness/c06_hist.cpp`, which replays the calls made on libstdc++ on the specification (suites `hist_*_spec`), and
+"momo::stdish is what `StdWrapOps` says" — suites `hist_*_wrap`. PARTIAL, because these parts of the shared interface are
+not calls of the model: allocator propagation and unequal allocators (the histories run with equal allocators), the bucket
+interface, `reserve` / `rehash` / `max_load_factor` / `load_factor`, `capacity` / `shrink_to_fit` / `data`, reverse iterators,
+`max_size`, `key_comp` / `hash_function`, heterogeneous lookup, constructors from ranges, self-assignment / self-merge, and
+C++20 ranges / three-way comparison. Unordered range erase is covered for the documented shapes only (the others are a
+documented deviation, outside the property). -/
+namespace Momo.StdW
+open Momo.StdSpec
+
+/-- **C06 history, ordered containers (`set`, `multiset`, `map`, `multimap`: `kd.multi`, `kd.isMap`).** For every list of
+calls from the shared interface — insert / emplace (value, hint, range, initializer list, node handle, hinted node handle),
+`try_emplace`, `insert_or_assign`, `operator[]`, `at`, erase (key, iterator, iterator range, `erase_if`), extract (key,
+iterator), merge, find, count, contains, lower_bound, upper_bound, equal_range, clear, size, empty, swap, copy / move
+assignment and construction, assignment from an initializer list, `== != < <= > >=`, traversal — that is legal (`ordLegal`:
+every iterator argument denotes a position of the current sequence, erased / extracted positions are dereferenceable,
+`first` is not behind `last`, the `map`-only members are called on `map` only): the wrapper model and the specification
+give the same observations, call by call. -/
+theorem C06_history_ordered (kd : Kind) (calls : List OCall) (hl : ordLegal kd calls = true) :
+    ordRunWrap kd calls = ordRunSpec kd calls :=
+  runWrapO_eq kd calls {} (invO_init kd) hl
+
+/-- one call of an ordered container, from any pair of sorted containers: same new state, same observation, order kept -/
+theorem C06_step_ordered (kd : Kind) (s : St) (hi : InvO kd s) (c : OCall) (hl : c.legal kd s = true) :
+    wrapO kd s c = c.spec kd s ∧ InvO kd (c.spec kd s).1 :=
+  wrapO_refines kd s hi c hl
+
+/-- **C06 history, `vector`.** push_back / emplace_back, pop_back, insert (value, n copies, range / initializer list),
+emplace, erase (iterator, range, by value), resize (both), assign (n copies, range / list), `at` (with `std::out_of_range`),
+`operator[]`, front, back, clear, size, empty, swap, copy / move, the six comparisons, traversal: every legal history
+gives the same observations on the wrapper model and on the specification. -/
+theorem C06_history_vector (calls : List VCall) (hl : vecLegal calls = true) : vecRunWrap calls = vecRunSpec calls :=
+  runWrapV_eq calls {} hl
+
+/-- **C06 history, `unordered_set` / `unordered_map`.** For EVERY way the native hash table may order its elements —
+an oracle `ρ` re-arranges both tables after every call — and every legal history (iterator arguments denote present
+elements; range erase limited to the documented empty / single-element / whole-container ranges, with `first` obtained by
+traversal or as a lookup result): same observations as the specification, whose observations do not depend on any order
+(lookups report the element, traversals are canonicalised, `==` is equality of the element multisets). -/
+theorem C06_history_unordered_unique (isMap : Bool) (ρ : Nat → List (Nat × Nat) → List (Nat × Nat))
+    (hρ : Rearranges ρ) (calls : List UCall) (hl : unoLegal isMap calls = true) :
+    unoRunWrap ρ calls = unoRunSpec calls :=
+  runWrapU_eq ρ hρ isMap calls 0 {} {} relU_init hl
+
+/-- **C06 history, `unordered_multimap`.** The native table key -> value array (distinct keys; a key may stay without
+values after `erase_if`; the key order re-arranged by an oracle after every call) against the multiset of pairs: insert /
+emplace (plain, hinted, range, list), find, count, contains, equal_range (traversed), erase by key / iterator / `erase_if`,
+`erase(first, last)` for the documented ranges — empty, one element (by traversal or through a lookup result), one whole
+key (by traversal iterators or by `equal_range`), the whole container —, clear, size, empty, swap, copy / move, `==` / `!=`,
+traversal: every legal history gives the same observations; in particular value-less keys are never observable. -/
+theorem C06_history_unordered_multimap (ρ : Nat → Momo.StdWrap.MM → Momo.StdWrap.MM) (hρ : RearrangesM ρ)
+    (calls : List MCall) (hl : mmLegal calls = true) : mmRunWrap ρ calls = mmRunSpec calls :=
+  runWrapM_eq ρ hρ calls 0 {} {} relM_init hl
+
+/-- **The native contract used for TreeSet / TreeMap is C02's reference semantics.** What the wrapper model assumes of the
+native tree — lower / upper bound and the stable insertion `treeInsert` on the in-order list — is `Momo.BTree.lowerIdx`,
+`upperIdx` and `Spec.insert1` for the order "compare the keys" (which satisfies `Order`), i.e. exactly what
+`C02_bounds` / `C02_insert_stable` / `C02_history` prove the real B-tree model refines; the order invariant of the history
+theorem is C02's `SortedBy`. -/
+theorem C06_native_contract_is_C02_reference (multi : Bool) (xs : List (Nat × Nat)) (hs : SortedK multi xs) (x : Nat × Nat) :
+    Momo.BTree.Order keyLt ∧ Momo.BTree.SortedBy keyLt multi xs ∧
+    Momo.StdWrap.lb x.1 xs = Momo.BTree.lowerIdx keyLt xs x ∧ Momo.StdWrap.ub x.1 xs = Momo.BTree.upperIdx keyLt xs x ∧
+    (Momo.StdWrap.treeInsert multi xs x).1 = Momo.BTree.Spec.insert1 keyLt multi xs x :=
+  ⟨keyLt_order, (sortedK_iff_sortedBy multi xs).mp hs, lb_eq_lowerIdx xs x, ub_eq_upperIdx xs x,
+   treeInsert_eq_insert1 multi xs hs x⟩
+
+/-- **`C06_full`, instantiated with the specification as the semantics of the std containers**, for all eight container
+kinds (the statement of `C06_full` with `obsStd` := the observations of `StdSpec`). -/
+theorem C06_history_vs_spec :
+    (∀ kd : Kind, Momo.StdWrap.C06_full OCall Obs (ordRunWrap kd) (ordRunSpec kd) (fun cs => ordLegal kd cs = true)) ∧
+    Momo.StdWrap.C06_full VCall Obs vecRunWrap vecRunSpec (fun cs => vecLegal cs = true) ∧
+    (∀ (isMap : Bool) (ρ : Nat → List (Nat × Nat) → List (Nat × Nat)), Rearranges ρ →
+      Momo.StdWrap.C06_full UCall Obs (unoRunWrap ρ) unoRunSpec (fun cs => unoLegal isMap cs = true)) ∧
+    (∀ (ρ : Nat → Momo.StdWrap.MM → Momo.StdWrap.MM), RearrangesM ρ →
+      Momo.StdWrap.C06_full MCall Obs (mmRunWrap ρ) mmRunSpec (fun cs => mmLegal cs = true)) :=
+  ⟨fun kd cs h => C06_history_ordered kd cs h, fun cs h => C06_history_vector cs h,
+   fun isMap ρ hρ cs h => C06_history_unordered_unique isMap ρ hρ cs h,
+   fun ρ hρ cs h => C06_history_unordered_multimap ρ hρ cs h⟩
+
+/-! ## Non-vacuity: long legal histories -/
+
+/-- multiset: duplicates, hints left of / inside / right of the equal range, range insert, node handles (plain and hinted,
+into the other container), range erase (proper, empty), merge, comparisons, swap, erase by key, copy, move, `erase_if` -/
+def exHistMultiset : List OCall := [
+  .insert .a (3, 1), .insert .a (3, 2), .emplace .a (1, 3), .insertHint .a 0 (3, 4), .insertHint .a 4 (3, 5),
+  .emplaceHint .a 2 (3, 6), .insertHint .a 0 (9, 7), .insertRange .b [(3, 8), (2, 9), (3, 10)], .contents .a,
+  .equalRange .a 3, .count .a 3, .find .a 3, .lowerBound .a 2, .upperBound .a 3,
+  .extractAt .a 2, .insertNodeHint .b 0, .extractKey .a 3, .insertNode .b, .insertNode .b,
+  .eraseRange .a 1 3, .eraseRange .a 2 2, .contents .a, .contents .b, .merge .a, .compare, .swap, .eraseKey .b 3,
+  .eraseAt .b 0, .assignCopy .b, .compare, .assignMove .a, .eraseIf .a 2 1, .contents .a, .contents .b, .size .a, .empty .b]
+
+example : ordLegal ⟨true, false⟩ exHistMultiset = true := by decide
+-- the sequence after the hinted insertions: 3:4 went to the lower bound, 3:6 to the hint inside the range, 3:5 to its end
+example : (ordRunSpec ⟨true, false⟩ exHistMultiset)[8]? = some (.items [(1, 3), (3, 4), (3, 6), (3, 1), (3, 2), (3, 5), (9, 7)]) := by
+  decide
+example : ordRunWrap ⟨true, false⟩ exHistMultiset = ordRunSpec ⟨true, false⟩ exHistMultiset :=
+  C06_history_ordered _ _ (by decide)
+
+/-- map: refused insertions with and without hints, `try_emplace`, `insert_or_assign`, `operator[]`, `at` on a missing key,
+a refused node that stays in the handle, a refused hinted node, range erase, merge leaving the duplicates behind -/
+def exHistMap : List OCall := [
+  .insert .a (5, 50), .insert .a (5, 51), .insertHint .a 0 (2, 20), .insertHint .a 2 (2, 21), .tryEmplace .a none (7, 70),
+  .tryEmplace .a (some 0) (7, 71), .insertOrAssign .a none (5, 55), .insertOrAssign .a (some 3) (9, 90), .index .a 4,
+  .indexAssign .a 4 44, .at .a 4, .at .a 6, .insertList .b [(5, 1), (6, 2), (5, 3)], .extractKey .b 5, .insertNode .a,
+  .insertNodeHint .a 0, .dropNode, .extractAt .b 0, .insertNodeHint .a 5, .contents .a, .eraseRange .a 1 3, .merge .b,
+  .contents .a, .contents .b, .compare, .equalRange .b 9, .count .b 8, .contains .b 9, .constructMove .a, .compare]
+
+example : ordLegal ⟨false, true⟩ exHistMap = true := by decide
+example : ordRunWrap ⟨false, true⟩ exHistMap = ordRunSpec ⟨false, true⟩ exHistMap :=
+  C06_history_ordered _ _ (by decide)
+-- the refused node handle keeps its element (plain and hinted), `at(6)` throws
+example : (ordRunSpec ⟨false, true⟩ exHistMap)[14]? = some (.posNode 2 false (some (5, 1))) ∧
+          (ordRunSpec ⟨false, true⟩ exHistMap)[15]? = some (.posNode 2 false (some (5, 1))) ∧
+          (ordRunSpec ⟨false, true⟩ exHistMap)[11]? = some .outOfRange := by decide
+
+def exHistVector : List VCall := [
+  .pushBack .a 1, .pushBack .a 2, .insert .a 1 9, .insertN .a 0 2 7, .insertN .a 3 0 5, .insertRange .a 5 [4, 4],
+  .eraseRange .a 2 2, .eraseAt .a 0, .at .a 6, .at .a 5, .resize .a 8, .resizeVal .b 2 3, .compare, .swap, .popBack .b,
+  .eraseVal .b 4, .assignN .a 3 1, .front .b, .back .b, .assignMove .a, .contents .a, .contents .b]
+
+example : vecLegal exHistVector = true := by decide
+example : vecRunWrap exHistVector = vecRunSpec exHistVector := C06_history_vector _ (by decide)
+
+/-- unordered_map: refused insertions, `insert_or_assign`, `operator[]`, erase through a lookup iterator, the three legal
+range shapes (single element through a lookup result and by traversal, whole container), node handles, merge, `==` -/
+def exHistUmap : List UCall := [
+  .insert .a (5, 50), .insert .a (5, 51), .emplaceHint .a (2, 20), .tryEmplace .a true (2, 21), .insertOrAssign .a false (5, 55),
+  .index .a 4, .indexAssign .a 4 44, .at .a 6, .insertList .b [(5, 1), (6, 2), (5, 3)], .extractKey .b 5, .insertNode .a,
+  .insertNodeHint .a, .eraseRange .a (.single 2 false), .eraseRange .b (.single 6 true), .eraseRange .b .empty,
+  .insert .b (4, 44), .insert .b (5, 55), .compare, .eraseElem .a 4, .merge .a, .contents .a, .contents .b,
+  .eraseRange .a .whole, .compare, .size .a]
+
+example : unoLegal true exHistUmap = true := by decide
+/-- an oracle that reverses both tables after every call -/
+example : unoRunWrap (fun _ xs => xs.reverse) exHistUmap = unoRunSpec exHistUmap :=
+  C06_history_unordered_unique true _ (fun _ xs => List.reverse_perm xs) _ (by decide)
+
+/-- unordered_multimap: equal keys, `erase_if` leaving a value-less key, `==` afterwards, the four range shapes (single
+through a lookup result, whole key by `equal_range` and by traversal, whole container), erase through an iterator -/
+def exHistUmmap : List MCall := [
+  .insert .a (1, 10), .insert .a (1, 11), .emplaceHint .a (2, 20), .insert .a (1, 12), .insertList .b [(2, 20), (1, 12), (1, 10)],
+  .count .a 1, .equalRange .a 1, .eraseRange .a (.single (1, 11) false), .compare, .eraseIf .a 2 0, .contents .a,
+  .eraseKey .b 2, .compare, .find .a 2, .insert .a (3, 30), .insert .a (3, 31), .eraseRange .a (.wholeKey 3 false),
+  .eraseRange .a (.wholeKey 1 true), .size .a, .empty .a, .assignCopy .a, .eraseElem .a (1, 10), .eraseRange .a .empty,
+  .contents .a, .eraseRange .a .whole, .size .a]
+
+example : mmLegal exHistUmmap = true := by decide
+/-- an oracle that reverses the key entries of both tables after every call -/
+example : mmRunWrap (fun _ m => m.reverse) exHistUmmap = mmRunSpec exHistUmmap :=
+  C06_history_unordered_multimap _ (fun _ m => List.reverse_perm m) _ (by decide)
+-- after `erase_if(a, key even)` the key 2 has no values in the wrapper's table, yet `a == b` holds once b dropped the key
+example : (mmRunSpec exHistUmmap)[12]? = some (.eqne true false) := by decide
+
+end Momo.StdW
